@@ -119,6 +119,8 @@ pub struct Content {
     pub n_comment_words: usize,
     pub n_opt_commas: usize,
     pub n_use_items: usize,
+    /// comments that stand behind a token on its line
+    pub n_trailing_comments: usize,
 }
 
 struct Walker<'a> {
@@ -132,6 +134,8 @@ struct Walker<'a> {
     n_comment_words: usize,
     n_opt_commas: usize,
     n_use_items: usize,
+    n_trailing_comments: usize,
+    in_trailing: bool,
 }
 
 /// The prefix (slashes, exclamation marks) and the whitespace-separated words of one comment line.
@@ -160,7 +164,9 @@ impl<'a> Walker<'a> {
         // except in a one-element tuple expression/pattern where it makes the tuple
         match parent.kind(db) {
             SyntaxKind::ExprList | SyntaxKind::PatternList => sibs.len() > 2,
-            _ => true,
+            SyntaxKind::MatchArms => true,
+            // every other comma-separated list node (`...List`); token trees are handled apart
+            k => format!("{k:?}").ends_with("List") && k != SyntaxKind::TokenList,
         }
     }
 
@@ -172,6 +178,9 @@ impl<'a> Walker<'a> {
                 | SyntaxKind::TokenSingleLineDocComment
                 | SyntaxKind::TokenSingleLineInnerComment => {
                     self.n_comments += 1;
+                    if self.in_trailing {
+                        self.n_trailing_comments += 1;
+                    }
                     let (tag, words) = comment_words(t.get_text(db));
                     if words.is_empty() {
                         // an empty comment line is still a comment
@@ -244,12 +253,7 @@ impl<'a> Walker<'a> {
                         u.visibility(db).as_syntax_node(),
                         u.dollar(db).as_syntax_node(),
                     ] {
-                        for t in part.tokens(db) {
-                            if !is_trivia_token(t.kind(db)) {
-                                deco.push_str(t.get_text(db));
-                                deco.push(' ');
-                            }
-                        }
+                        deco.push_str(&self.tok_string(&part));
                     }
                     let mut ls = vec![];
                     self.use_leaves(&u.use_path(db), "", &mut ls);
@@ -270,13 +274,7 @@ impl<'a> Walker<'a> {
                 let mut mods = vec![];
                 let mut j = i;
                 while j < kids.len() && is_mod_decl(&kids[j]) {
-                    let mut s = String::new();
-                    for t in kids[j].tokens(db) {
-                        if !is_trivia_token(t.kind(db)) {
-                            s.push_str(t.get_text(db));
-                            s.push(' ');
-                        }
-                    }
+                    let s = self.tok_string(&kids[j]);
                     mods.push(s);
                     self.item_comments(&kids[j]);
                     j += 1;
@@ -289,6 +287,24 @@ impl<'a> Walker<'a> {
                 i += 1;
             }
         }
+    }
+
+    /// The normalised code tokens below `n` as one string (comments and shape dropped).
+    fn tok_string(&mut self, n: &SyntaxNode<'a>) -> String {
+        let before = self.out.len();
+        let (a, b, c, d) = (self.n_tokens, self.n_comments, self.n_comment_words, self.n_opt_commas);
+        self.node(n);
+        (self.n_tokens, self.n_comments, self.n_comment_words, self.n_opt_commas) = (a, b, c, d);
+        let items: Vec<Item> = self.out.drain(before..).collect();
+        let (items, _) = drop_token_tree_trailing_commas(items);
+        let mut s = String::new();
+        for it in items {
+            if let Item::Tok(t) = it {
+                s.push_str(&t);
+                s.push(' ');
+            }
+        }
+        s
     }
 
     /// Only the comments below `n` (used for use/mod items in reorder mode).
@@ -305,9 +321,49 @@ impl<'a> Walker<'a> {
         }
     }
 
+    /// `;` after a block-like expression statement that is not the last statement of its block:
+    /// the language does not need it.
+    fn is_optional_semicolon(&self, n: &SyntaxNode<'a>) -> bool {
+        let db = self.db;
+        if n.kind(db) != SyntaxKind::TerminalSemicolon || n.parent_kind(db) != Some(SyntaxKind::StatementExpr) {
+            return false;
+        }
+        let st = n.parent(db).unwrap();
+        let kids = st.get_children(db);
+        let blocklike = kids.iter().any(|k| {
+            matches!(
+                k.kind(db),
+                SyntaxKind::ExprBlock
+                    | SyntaxKind::ExprIf
+                    | SyntaxKind::ExprMatch
+                    | SyntaxKind::ExprLoop
+                    | SyntaxKind::ExprWhile
+                    | SyntaxKind::ExprFor
+            )
+        });
+        if !blocklike {
+            return false;
+        }
+        match st.parent(db) {
+            Some(list) => list.get_children(db).last() != Some(&st),
+            None => false,
+        }
+    }
+
+    /// `::` between a path segment and its generic arguments (`Box::<T>` = `Box<T>` in type position;
+    /// elsewhere removing it changes the parse, which the shape comparison sees).
+    fn is_generic_args_colon_colon(&self, n: &SyntaxNode<'a>) -> bool {
+        n.kind(self.db) == SyntaxKind::TerminalColonColon
+            && n.parent_kind(self.db) == Some(SyntaxKind::PathSegmentWithGenericArgs)
+    }
+
     fn node(&mut self, n: &SyntaxNode<'a>) {
         let db = self.db;
         let kind = n.kind(db);
+        if n.width(db) == cairo_lang_filesystem::span::TextWidth::default() {
+            // empty nodes (missing optional parts, empty lists) carry nothing
+            return;
+        }
         if kind.is_terminal() {
             let kids = n.get_children(db);
             if kids.len() != 3 {
@@ -317,13 +373,20 @@ impl<'a> Walker<'a> {
             self.trivia(&kids[0]);
             if kind == SyntaxKind::TerminalEmpty {
                 // no text
-            } else if self.is_optional_trailing_comma(n) {
+            } else if self.is_optional_trailing_comma(n)
+                || self.is_optional_semicolon(n)
+                || self.is_generic_args_colon_colon(n)
+            {
                 self.n_opt_commas += 1;
+            } else if kids[1].get_text(db).is_empty() {
+                // end of file
             } else {
                 self.n_tokens += 1;
                 self.out.push(Item::Tok(format!("{:?}:{}", kind, kids[1].get_text(db))));
             }
+            self.in_trailing = !kids[1].get_text(db).is_empty();
             self.trivia(&kids[2]);
+            self.in_trailing = false;
         } else if kind.is_token() {
             self.n_tokens += 1;
             self.out.push(Item::Tok(format!("{:?}:{}", kind, n.get_text(db))));
@@ -333,6 +396,42 @@ impl<'a> Walker<'a> {
             self.out.push(Item::Close);
         }
     }
+}
+
+/// The code tokens below `n` (trivia skipped), separated by single spaces.
+fn code_text<'a>(db: &'a SimpleParserDatabase, n: &SyntaxNode<'a>, out: &mut String) {
+    if n.kind(db) == SyntaxKind::Trivia {
+        return;
+    }
+    if n.text(db).is_some() {
+        if !is_trivia_token(n.kind(db)) {
+            out.push_str(n.get_text(db));
+            out.push(' ');
+        }
+        return;
+    }
+    for c in n.get_children(db) {
+        code_text(db, c, out);
+    }
+}
+
+/// A comment that directly follows the text of a token (no whitespace between them).
+fn has_glued_comment<'a>(db: &'a SimpleParserDatabase, n: &SyntaxNode<'a>) -> bool {
+    if n.kind(db).is_terminal() {
+        let kids = n.get_children(db);
+        if kids.len() == 3 && !kids[1].get_text(db).is_empty() {
+            if let Some(first) = kids[2].get_children(db).first() {
+                return matches!(
+                    first.kind(db),
+                    SyntaxKind::TokenSingleLineComment
+                        | SyntaxKind::TokenSingleLineDocComment
+                        | SyntaxKind::TokenSingleLineInnerComment
+                );
+            }
+        }
+        return false;
+    }
+    n.get_children(db).iter().any(|c| has_glued_comment(db, c))
 }
 
 fn is_trivia_token(k: SyntaxKind) -> bool {
@@ -346,26 +445,44 @@ fn is_trivia_token(k: SyntaxKind) -> bool {
     )
 }
 
-/// Token trees (macro arguments): a comma directly before the closing bracket of a token tree is
-/// an optional trailing comma too (the formatter formats legacy macro arguments as an arg list).
+/// Token trees (macro arguments): the formatter formats legacy macro arguments as an argument
+/// list, so a comma directly before a closing bracket of the token tree - or before a `>` / `|`
+/// leaf (generic arguments, closure parameters inside the macro) - is an optional trailing comma.
 fn drop_token_tree_trailing_commas(items: Vec<Item>) -> (Vec<Item>, usize) {
-    // pattern: Open(TokenTreeLeaf) Tok(TerminalComma:,) Close  immediately followed (after the
-    // enclosing TokenList closes) by the closing bracket terminal of a wrapped token tree
     let mut out: Vec<Item> = Vec::with_capacity(items.len());
     let mut dropped = 0;
     let n = items.len();
     let mut i = 0;
     while i < n {
-        if i + 4 < n
-            && matches!(&items[i], Item::Open(k) if k == "TokenTreeLeaf")
-            && matches!(&items[i + 1], Item::Tok(t) if t == "TerminalComma:,")
-            && items[i + 2] == Item::Close
-            && items[i + 3] == Item::Close
-            && matches!(&items[i + 4], Item::Tok(t) if t.starts_with("TerminalRParen:") || t.starts_with("TerminalRBrack:") || t.starts_with("TerminalRBrace:"))
-        {
-            dropped += 1;
-            i += 3;
-            continue;
+        if matches!(&items[i], Item::Open(k) if k == "TokenTreeLeaf") {
+            // a leaf holding exactly one comma (comments attached to it stay)
+            let mut e = i + 1;
+            let mut commas = 0;
+            let mut other = false;
+            while e < n && items[e] != Item::Close {
+                match &items[e] {
+                    Item::Cw(..) => {}
+                    Item::Tok(t) if t == "TerminalComma:," => commas += 1,
+                    _ => other = true,
+                }
+                e += 1;
+            }
+            if e < n && commas == 1 && !other {
+                // next token after the leaf
+                let mut j = e + 1;
+                while j < n && matches!(&items[j], Item::Close | Item::Open(_) | Item::Cw(..)) {
+                    j += 1;
+                }
+                let closer = matches!(items.get(j), Some(Item::Tok(t)) if t.starts_with("TerminalRParen:")
+                    || t.starts_with("TerminalRBrack:") || t.starts_with("TerminalRBrace:")
+                    || t.starts_with("TerminalGT:") || t.starts_with("TerminalOr:"));
+                if closer {
+                    dropped += 1;
+                    out.extend(items[i + 1..e].iter().filter(|x| matches!(x, Item::Cw(..))).cloned());
+                    i = e + 1;
+                    continue;
+                }
+            }
         }
         out.push(items[i].clone());
         i += 1;
@@ -384,6 +501,8 @@ pub fn content<'a>(db: &'a SimpleParserDatabase, root: &SyntaxNode<'a>, cfg: Cfg
         n_comment_words: 0,
         n_opt_commas: 0,
         n_use_items: 0,
+        n_trailing_comments: 0,
+        in_trailing: false,
     };
     w.node(root);
     let (full, d) = drop_token_tree_trailing_commas(w.out);
@@ -394,6 +513,7 @@ pub fn content<'a>(db: &'a SimpleParserDatabase, root: &SyntaxNode<'a>, cfg: Cfg
         n_comment_words: w.n_comment_words,
         n_opt_commas: w.n_opt_commas + d,
         n_use_items: w.n_use_items,
+        n_trailing_comments: w.n_trailing_comments,
     }
 }
 
@@ -430,7 +550,8 @@ fn split(items: &[Item]) -> (Vec<Item>, Vec<Item>) {
 
 pub struct Verdict {
     pub parsed: bool,
-    pub fails: Vec<(&'static str, String)>,
+    /// (class, detail, signature of a recognised known root cause or "")
+    pub fails: Vec<(&'static str, String, String)>,
     pub out: String,
     pub stats: Value,
 }
@@ -446,9 +567,9 @@ pub fn check(text: &str, cfg: Cfg) -> Verdict {
             return None;
         }
         let c_in = content(db, &root, cfg);
-        Some((c_in.full, c_in.n_tokens, c_in.n_comments, c_in.n_comment_words, c_in.n_opt_commas, c_in.n_use_items))
+        Some((c_in.full, c_in.n_tokens, c_in.n_comments, c_in.n_comment_words, c_in.n_opt_commas, c_in.n_use_items, c_in.n_trailing_comments))
     });
-    let (in_items, n_tokens, n_comments, n_cw, n_oc, n_use) = match r {
+    let (in_items, n_tokens, n_comments, n_cw, n_oc, n_use, n_trail_in) = match r {
         Ok(Some(x)) => x,
         Ok(None) => return v,
         Err(m) => {
@@ -467,7 +588,7 @@ pub fn check(text: &str, cfg: Cfg) -> Verdict {
     let out1 = match f1 {
         Ok(s) => s,
         Err(m) => {
-            v.fails.push(("panic-format", m));
+            v.fails.push(("panic-format", m, String::new()));
             return v;
         }
     };
@@ -480,24 +601,112 @@ pub fn check(text: &str, cfg: Cfg) -> Verdict {
         let d = diags.get_all();
         let derr = if d.is_empty() { None } else { Some(diags.format(db)) };
         let c_out = content(db, &root, cfg);
+        let glued = has_glued_comment(db, &root);
         let out2 = get_formatted_file(db, &root, cfg.to_config());
-        (derr, c_out.full, c_out.n_opt_commas, out2)
+        (derr, c_out.full, c_out.n_opt_commas, out2, glued, c_out.n_trailing_comments)
     });
-    let (derr, out_items, n_oc_out, out2) = match r2 {
+    let (derr, out_items, n_oc_out, out2, glued, n_trail_out) = match r2 {
         Ok(x) => x,
         Err(m) => {
-            v.fails.push(("panic-reformat", m));
+            v.fails.push(("panic-reformat", m, String::new()));
             return v;
         }
     };
+    // ---- signatures of the known root causes (see known_findings.txt, property C11) ----
+    let bare_prefix_ws = |l: &str| -> bool {
+        let t = l.trim_end();
+        t.len() < l.len() && !t.trim_start().is_empty() && t.trim_start().chars().all(|c| c == '/' || c == '!')
+            && t.trim_start().starts_with("//")
+    };
+    let k1_present = out1.lines().any(bare_prefix_ws);
+    let k1 = "C11-K1-blank-comment-line";
+    let k2 = "C11-K2-word-read-as-prefix";
+    let k3 = "C11-K3-leading-comment-glued";
+    let k4 = "C11-K4-merge-drops-blank-line";
+    let k5 = "C11-K5-macro-rule-comment-swallows-semicolon";
+    let k6 = "C11-K6-file-start-comment-reattached";
+    // shape: code tokens + tree structure; linear: code tokens and comment words in text order
+    let shape = |v: &[Item]| -> Vec<Item> {
+        // nodes that hold no code token (only comments) are dropped
+        let mut r: Vec<Item> = vec![];
+        for x in v.iter().filter(|x| !matches!(x, Item::Cw(..))) {
+            if *x == Item::Close && matches!(r.last(), Some(Item::Open(_))) {
+                r.pop();
+            } else {
+                r.push(x.clone());
+            }
+        }
+        r
+    };
+    let linear = |v: &[Item]| -> Vec<Item> {
+        v.iter().filter(|x| !matches!(x, Item::Open(_) | Item::Close)).cloned().collect()
+    };
+    let (si, so) = (shape(&in_items), shape(&out_items));
+    let (ti, to) = (linear(&si), linear(&so));
+    // K5: exactly one `;` of the input is missing and a comment of the output ends with it
+    let k5_match = {
+        let mut m = false;
+        if ti.len() == to.len() + 1 {
+            let mut i = 0;
+            while i < to.len() && ti[i] == to[i] {
+                i += 1;
+            }
+            if matches!(&ti[i], Item::Tok(t) if t == "TerminalSemicolon:;") && ti[i + 1..] == to[i..] {
+                m = out_items.iter().any(|x| matches!(x, Item::Cw(_, w) if w.ends_with(';')))
+                    && text.contains("macro");
+            }
+        }
+        m
+    };
     if let Some(d) = derr {
-        v.fails.push(("output-does-not-parse", d.chars().take(600).collect()));
+        let sig = if k5_match { k5.to_string() } else { String::new() };
+        v.fails.push(("output-does-not-parse", d.chars().take(600).collect(), sig));
     }
     if out2 != out1 {
         let (l1, l2): (Vec<&str>, Vec<&str>) = (out1.lines().collect(), out2.lines().collect());
         let mut i = 0;
         while i < l1.len() && i < l2.len() && l1[i] == l2[i] {
             i += 1;
+        }
+        let mut sig = vec![];
+        // K1: f(f(t)) is f(t) with the bare-prefix lines right-trimmed
+        let fixed: Vec<String> =
+            l1.iter().map(|l| if bare_prefix_ws(l) { l.trim_end().to_string() } else { l.to_string() }).collect();
+        if k1_present && fixed.iter().map(|x| x.as_str()).eq(l2.iter().copied()) {
+            sig.push(k1);
+        }
+        // K4: merging is on, only blank lines next to use items disappear
+        let nb = |ls: &[&str]| -> Vec<String> { ls.iter().filter(|l| !l.trim().is_empty()).map(|l| l.to_string()).collect() };
+        if sig.is_empty() && cfg.merge() && nb(&l1) == nb(&l2) {
+            let near_use = |k: usize| -> bool {
+                l1[k..].iter().find(|l| !l.trim().is_empty()).map(|l| {
+                    let t = l.trim_start();
+                    t.starts_with("use ") || t.starts_with("pub use ") || t.starts_with("pub(") || t.starts_with("#[")
+                }).unwrap_or(false)
+            };
+            if i < l1.len() && l1[i].trim().is_empty() && near_use(i) {
+                sig.push(k4);
+            }
+        }
+        // K6: sorting moved a comment-bearing use/mod item to the start of the file, where the
+        // parser attaches the comment to the file header instead of the item
+        let starts_with_comment = |t: &str| t.trim_start().starts_with("//");
+        if sig.is_empty() && cfg.reorders() && starts_with_comment(&out1) && !starts_with_comment(text) {
+            let first_code = out1.lines().find(|l| !l.trim().is_empty() && !l.trim_start().starts_with("//"));
+            if first_code.map(|l| {
+                let t = l.trim_start();
+                t.starts_with("use ") || t.starts_with("pub use ") || t.starts_with("pub(") || t.starts_with("#[") || t.starts_with("mod ") || t.starts_with("pub mod ")
+            }).unwrap_or(false) {
+                sig.push(k6);
+            }
+        }
+        // K3: a comment that stood on its own line was emitted behind the token before it
+        // (glued or not): after re-parsing it is a trailing comment
+        if sig.is_empty() && (glued || n_trail_out > n_trail_in) {
+            sig.push(k3);
+        }
+        if sig.is_empty() && k1_present {
+            sig.push(k1);
         }
         v.fails.push((
             "not-idempotent",
@@ -507,30 +716,67 @@ pub fn check(text: &str, cfg: Cfg) -> Verdict {
                 l1.get(i).unwrap_or(&"<eof>"),
                 l2.get(i).unwrap_or(&"<eof>")
             ),
+            sig.join(" "),
         ));
     }
-    if !cfg.reorders() {
-        if in_items != out_items {
-            let (ci, mi) = split(&in_items);
-            let (co, mo) = split(&out_items);
-            if ci != co {
-                v.fails.push(("code-tokens-changed", first_diff(&ci, &co)));
-            } else if mi != mo {
-                v.fails.push(("comments-changed", first_diff(&mi, &mo)));
-            } else {
-                v.fails.push(("comment-moved", first_diff(&in_items, &out_items)));
-            }
+    if si != so {
+        if ti != to {
+            let sig = if k5_match { k5.to_string() } else { String::new() };
+            v.fails.push(("code-tokens-changed", first_diff(&ti, &to), sig));
+        } else {
+            v.fails.push(("code-structure-changed", first_diff(&si, &so), String::new()));
         }
-    } else {
-        let (ci, mut mi) = split(&in_items);
-        let (co, mut mo) = split(&out_items);
-        if ci != co {
-            v.fails.push(("code-tokens-changed", first_diff(&ci, &co)));
+    }
+    {
+        // comments: in order (interleaved with the code tokens) or, when items may move, as a multiset
+        let (li, lo) = (linear(&in_items), linear(&out_items));
+        let (mut mi, mut mo) = (split(&li).1, split(&lo).1);
+        if cfg.reorders() {
+            mi.sort();
+            mo.sort();
         }
-        mi.sort();
-        mo.sort();
         if mi != mo {
-            v.fails.push(("comments-changed", first_diff(&mi, &mo)));
+            // K1: the only difference is additional empty comment lines;
+            // K2: the words agree once the prefix characters `/` and `!` that moved between a
+            //     line's prefix and its first word are ignored (tags dropped, leading `/` `!`
+            //     stripped from every word)
+            let norm = |v: &[Item], strip: bool| -> Vec<String> {
+                let mut r: Vec<String> = v
+                    .iter()
+                    .filter_map(|x| match x {
+                        Item::Cw(_, w) if w.is_empty() => None,
+                        Item::Cw(t, w) => {
+                            if strip {
+                                let z = w.trim_start_matches(['/', '!']).to_string();
+                                if z.is_empty() { None } else { Some(z) }
+                            } else {
+                                Some(format!("{t} {w}"))
+                            }
+                        }
+                        _ => None,
+                    })
+                    .collect();
+                if cfg.reorders() {
+                    r.sort();
+                }
+                r
+            };
+            let empties = |v: &[Item]| v.iter().filter(|x| matches!(x, Item::Cw(_, w) if w.is_empty())).count();
+            let more_empty = empties(&mo) > empties(&mi);
+            let mut sig = vec![];
+            if more_empty && norm(&mi, false) == norm(&mo, false) {
+                sig.push(k1);
+            } else if norm(&mi, true) == norm(&mo, true) && (more_empty || empties(&mo) == empties(&mi) || !k1_present) {
+                if more_empty {
+                    sig.push(k1);
+                }
+                sig.push(k2);
+            } else if k5_match {
+                sig.push(k5);
+            }
+            v.fails.push(("comments-changed", first_diff(&mi, &mo), sig.join(" ")));
+        } else if !cfg.reorders() && li != lo && si == so {
+            v.fails.push(("comment-moved", first_diff(&li, &lo), String::new()));
         }
     }
     v.stats = json!({
